@@ -100,9 +100,18 @@ def build_fileset(case, box, ctx):
         tc = "%d s" % cov
     else:
         tc = dt.timedelta(seconds=cov)
-    fileset = FileSet(pop.path, name="fs", time_coverage=tc,
+    late = case.get("coverage_late")
+    fileset = FileSet(pop.path, name="fs",
+                      time_coverage=tc if late is None else (
+                          None if late == 0 else dt.timedelta(seconds=late)),
                       exclude=exclude or None,
                       placeholder=G.user_placeholder_arg(tpl), fs=fs)
+    if late is not None:
+        # history: the fileset is used (its info cache is filled) with another
+        # time_coverage before the final one is assigned
+        ctx.label("coverage-assigned-late")
+        list(fileset.find(no_files_error=False))
+        fileset.time_coverage = tc
     return fileset, pop, excl_paths, excl_periods
 
 
@@ -423,6 +432,8 @@ def find_cases(draw):
     return {"template": tpl, "files": files, "distractors": distract,
             "fs": draw(st.sampled_from(["local", "local", "local", "zip"])),
             "coverage_as": draw(st.sampled_from(["td", "str"])),
+            "coverage_late": draw(st.sampled_from([None, None, None, 0, 1,
+                                                   7200])),
             "exclude_files": excl_files, "exclude_periods": excl_periods,
             "queries": queries, "contains": contains}
 
